@@ -101,8 +101,8 @@ def DOut.updateList (o : DOut) (expose : Bool) : DOut :=
   let e := o.expose || expose
   { o with expose := e, diff := if e && o.diff == .same then .add else o.diff, update := true }
 
-/-- `ListDiff::next` restricted to the items of one element.  Unlike the map loop the remembered
-    `last_visible` is returned whatever the last item is (list_range.rs:165). -/
+/-- `ListDiff::next` restricted to the items of one element (same selection as the map loop; the
+    items additionally carry the `update` flag: put vs insert) -/
 def listDiffLoop : DState → List DItem → Option DOut
   | _, [] => none
   | st, it :: rest =>
@@ -114,7 +114,7 @@ def listDiffLoop : DState → List DItem → Option DOut
       let lv := if it.diff != .del && nxt.diff == .del then some (listDiffItem it conflict expose numOld) else st.lastVisible
       listDiffLoop ⟨lastIsSame, numNew, numOld, lv⟩ rest
     | [] =>
-      match st.lastVisible with
+      match (if it.diff == .del then st.lastVisible else none) with
       | some last =>
         some { (last.updateList (expose || last.diff == .same)) with conflict := decide (numNew > 1) }
       | none =>
@@ -129,6 +129,8 @@ inductive RegEvent where
   | put (v : PVal) (conflict expose : Bool)
   | insert (v : PVal) (conflict expose : Bool)
   | inc (n : Int)
+  /-- an `Increment` patch followed by a `Conflict` patch -/
+  | incFlag (n : Int)
   | flag
   | del
   | nothing
@@ -138,14 +140,18 @@ inductive RegEvent where
 def DOut.mapEvent (o : DOut) : RegEvent :=
   match o.diff with
   | .add => .put o.val o.conflict o.expose
-  | .same => if o.inc != 0 then .inc o.inc else if o.conflict then .flag else .nothing
+  | .same =>
+    if o.inc != 0 then (if o.conflict then .incFlag o.inc else .inc o.inc)
+    else if o.conflict then .flag else .nothing
   | .del => .del
 
 /-- `ListDiffItem::log` -/
 def DOut.listEvent (o : DOut) : RegEvent :=
   match o.diff with
   | .add => if o.update then .put o.val o.conflict o.expose else .insert o.val o.conflict o.expose
-  | .same => if o.inc != 0 then .inc o.inc else if o.conflict then .flag else .nothing
+  | .same =>
+    if o.inc != 0 then (if o.conflict then .incFlag o.inc else .inc o.inc)
+    else if o.conflict then .flag else .nothing
   | .del => .del
 
 /-! ### the register as the hydrated view shows it -/
@@ -180,6 +186,11 @@ def applyEvent (e : REntry) : RegEvent → HOut REntry
     | none => .err .key
     | some (f, .scalar (.counter c)) => .ok (some (f, .scalar (.counter (c + n))))
     | some _ => .err .badIncrement
+  | .incFlag n =>
+    match e with
+    | none => .err .key
+    | some (_, .scalar (.counter c)) => .ok (some (true, .scalar (.counter (c + n))))
+    | some _ => .err .badIncrement
   | .flag =>
     match e with
     | none => .err .key
@@ -191,13 +202,18 @@ def applyEvent (e : REntry) : RegEvent → HOut REntry
 def DItem.wf (it : DItem) : Bool :=
   it.inc == 0 || (match it.val with | .scalar (.counter _) => true | _ => false)
 
-/-- the input class on which `MapDiff` is wrong (finding D15): the winner is the same counter at both
-    clocks, its value changed, and the register was unconflicted before and is conflicted after -/
-def d15Class (items : List DItem) : Bool :=
-  match items.getLast? with
-  | some w => w.diff == .same && w.inc != 0
-      && (items.filter DItem.visBefore).length == 1 && decide ((items.filter DItem.visAfter).length > 1)
-  | none => false
+def PVal.isScalar : PVal → Bool
+  | .scalar _ => true
+  | _ => false
+
+def PVal.isCounter : PVal → Bool
+  | .scalar (.counter _) => true
+  | _ => false
+
+/-- a counter after an increment by `n`; anything else unchanged -/
+def PVal.bump (n : Int) : PVal → PVal
+  | .scalar (.counter c) => .scalar (.counter (c + n))
+  | x => x
 
 /-! ### incremental patches of `apply_changes`: `ValueState` -/
 
@@ -241,23 +257,35 @@ inductive ChgOp where
 def foldDoc (ds : List DocOp) : Option OpValue :=
   ds.foldl (fun cur d => ovSet cur d.val d.id d.deleted) none
 
-/-- `process_change_op` / `do_increment` -/
-def stepChange (doc : Option OpValue) (change : Option OpValue) : ChgOp → Option OpValue
-  | .value id v => ovSet change v id false
+/-- `process_change_op` / `do_increment` on the pair (`doc`, `change`): an incoming value becomes
+    `change`; an increment goes to `change` (a clone of `doc` if nothing is tracked yet) when it
+    names it, and to the document's own value — which is then marked for re-put — when another
+    incoming value is tracked -/
+def stepChange (st : Option OpValue × Option OpValue) : ChgOp → Option OpValue × Option OpValue
+  | .value id v => (st.1, ovSet st.2 v id false)
   | .inc pred n =>
     let change1 :=
-      match change with
+      match st.2 with
       | some c => some c
       | none =>
-        match doc with
+        match st.1 with
         | some d => if pred.contains d.id && !d.deleted then some d else none
         | none => none
-    match change1 with
-    | some c => if pred.contains c.id then ovIncrement (some c) n else some c
-    | none => none
+    let change2 :=
+      match change1 with
+      | some c => if pred.contains c.id then ovIncrement (some c) n else some c
+      | none => none
+    let doc2 :=
+      match st.1 with
+      | some d =>
+        if (change2.map (·.id)) != some d.id && !d.deleted && pred.contains d.id && d.val.isCounter
+        then some { d with val := d.val.bump n, expose := true } else some d
+      | none => none
+    (doc2, change2)
 
-def foldChange (doc : Option OpValue) (cs : List ChgOp) : Option OpValue :=
-  cs.foldl (stepChange doc) none
+/-- (`doc`, `change`) after the incoming operations of the register, ascending id -/
+def foldChange (doc : Option OpValue) (cs : List ChgOp) : Option OpValue × Option OpValue :=
+  cs.foldl stepChange (doc, none)
 
 /-- `PVal::as_i64` of `hydrate::Value::as_i64` → `ScalarValue::as_i64` (what `map_process` subtracts) -/
 def PVal.asI64 : PVal → Int
@@ -273,11 +301,13 @@ def regPatch (doc change : Option OpValue) : RegEvent :=
   | none, some c => .put c.val c.conflict false
   | some d, none => if d.expose then .put d.val d.conflict true else if d.deleted then .del else .nothing
   | some d, some c =>
-    if d.id.lt c.id then .put c.val ((c.conflict && !d.conflict) || !d.deleted) false
-    else if c.id.lt d.id then (if !d.conflict then .flag else .nothing)
+    -- `d.deleted`: nothing of the document's register survives, the incoming value wins
+    if d.id.lt c.id || d.deleted then .put c.val ((c.conflict && !d.conflict) || !d.deleted) false
+    else if c.id.lt d.id then
+      (if d.expose then .put d.val true true else if !d.conflict then .flag else .nothing)
     else
       let n := c.val.asI64 - d.val.asI64
-      if n != 0 then .inc n else .nothing
+      if d.expose then .put c.val d.conflict false else if n != 0 then .inc n else .nothing
   | none, none => .nothing
 
 /-- the `SequenceType::List` arm of `ValueState::list_flush` (`insert` for a new element) -/
@@ -287,8 +317,8 @@ def listPatch (doc change : Option OpValue) : RegEvent :=
   | some d, some c =>
     if d.id == c.id then
       let n := c.val.asI64 - d.val.asI64
-      if n != 0 then .inc n else .nothing
-    else if c.id.lt d.id then .flag
+      if d.expose then .put c.val d.conflict false else if n != 0 then .inc n else .nothing
+    else if c.id.lt d.id && !d.deleted then (if d.expose then .put d.val true true else .flag)
     else .put c.val (!d.deleted || c.conflict) false
   | some d, none => if d.expose then .put d.val d.conflict true else if d.deleted then .del else .nothing
   | none, none => .nothing
@@ -307,34 +337,26 @@ inductive LocalAct where
   | inc (n : Int)
   deriving DecidableEq, Repr, Inhabited
 
-def PVal.isScalar : PVal → Bool
-  | .scalar _ => true
-  | _ => false
-
-def PVal.isCounter : PVal → Bool
-  | .scalar (.counter _) => true
-  | _ => false
-
-/-- a counter after an increment by `n`; anything else unchanged -/
-def PVal.bump (n : Int) : PVal → PVal
-  | .scalar (.counter c) => .scalar (.counter (c + n))
-  | x => x
-
-/-- `resolve_action` + `increment_replacement` + `finalize_op` for a map key / list element -/
+/-- `resolve_action` + `increment_replacement` + `finalize_op` (+ the re-put / conflict flag logged by
+    `local_map_op` / `local_list_op`) for a map key / list element -/
 def finalizeOp (ops : List PVal) (a : LocalAct) : RegEvent :=
   match a with
   | .put v =>
     match ops.getLast? with
     | some w =>
-      -- equal to the winner: nothing to do, or a `ConflictResolution(Delete)` op which is `noop`
-      if w == v && v.isScalar then .nothing else .put v false false
+      -- equal to the winner: nothing to do on an unconflicted register; on a conflicted one the
+      -- losing ops are deleted (`ConflictResolution(Delete)`) and the winner is put again
+      if w == v && v.isScalar then (if ops.length > 1 then .put w false false else .nothing)
+      else .put v false false
     | none => .put v false false
   | .del => if ops.isEmpty then .nothing else .del
   | .inc n =>
     if ops.length > 1 then
-      -- `increment_replacement`: the FIRST counter among the found ops, plus the increment
-      match ops.find? PVal.isCounter with
-      | some c => .put (c.bump n) false false
+      -- `increment_replacement`: the counter with the greatest id, plus the increment; the register
+      -- stays conflicted when several counters survive
+      let cs := ops.filter PVal.isCounter
+      match cs.getLast? with
+      | some c => .put (c.bump n) (decide (cs.length > 1)) false
       | none => .inc n
     else .inc n
 
@@ -378,19 +400,22 @@ def diffItemsOf (before after : List Op) (all : List Op) (obj : ObjId) (k : Byte
 def diffKeys (before after : List Op) (obj : ObjId) : List Bytes :=
   (mapKeys before obj).foldr insertKey (mapKeys after obj)
 
-/-- one own-level patch of a map object: action and the id printed with a put -/
-def mapPatchOf (k : Bytes) (o : DOut) : Option (PatchAction × OpId) :=
+/-- the own-level patches of one key of a map object: actions and the id printed with a put -/
+def mapPatchOf (k : Bytes) (o : DOut) : List (PatchAction × OpId) :=
   match o.mapEvent with
-  | .put v c _ => some (.putMap k v c, o.id)
-  | .insert v c _ => some (.putMap k v c, o.id)
-  | .inc n => some (.increment (.key k) n, o.id)
-  | .flag => some (.conflict (.key k), o.id)
-  | .del => some (.deleteMap k, o.id)
-  | .nothing => none
+  | .put v c _ => [(.putMap k v c, o.id)]
+  | .insert v c _ => [(.putMap k v c, o.id)]
+  | .inc n => [(.increment (.key k) n, o.id)]
+  | .incFlag n => [(.increment (.key k) n, o.id), (.conflict (.key k), o.id)]
+  | .flag => [(.conflict (.key k), o.id)]
+  | .del => [(.deleteMap k, o.id)]
+  | .nothing => []
 
 /-- the own-level patches `diff_obj(obj, H1, H2, false)` emits for a map object, in key order -/
 def diffMapObj (before after all : List Op) (obj : ObjId) : List (PatchAction × OpId) :=
-  (diffKeys before after obj).filterMap (fun k =>
-    (mapDiff (diffItemsOf before after all obj k)).bind (mapPatchOf k))
+  (diffKeys before after obj).flatMap (fun k =>
+    match mapDiff (diffItemsOf before after all obj k) with
+    | some o => mapPatchOf k o
+    | none => [])
 
 end AmVerif.Crdt
